@@ -5,15 +5,15 @@ FUNCTIONS = ["QueueReader::{advance,parse_byte_streams} (MIR): every allocation 
 ASSUME = [
     "decidable form: on every symbolic path of one call, (1) every vec!/resize/reserve argument is bounded by 65536 bytes (packet) or the 10 MiB XML cap, and (2) the call finishes within the "
     "symbolic executor's step budget (20000 MIR blocks) — a satisfiable path that exceeds it is reported as unbounded work and replayed natively under a 20 s / 3 GiB limit",
-    "the number of points an iterator yields is bounded by `records` by construction of PointCloudReaderRaw::next (not executed here); roxmltree's memory use is outside",
+    "after `records` points the raw iterator yields None without touching the device (decided from an arbitrary state with read >= records); roxmltree's memory use is outside",
     "inputs: any packet bytes, any descriptor, any device content; prototype shapes concrete incl. the all-constant prototype",
 ]
 
 
 def run(ctx):
-    from mirsym import spec_blob, spec_packet, spec_reader
+    from mirsym import spec_blob, spec_iter, spec_packet, spec_reader
     tier = ctx["tier"]
-    scen = [s for s in spec_packet.scenarios(tier)] + spec_reader.scenarios(tier)[3:] + spec_blob.scenarios(tier)[2:3]
+    scen = spec_iter.scenarios(tier)[3:] + [s for s in spec_packet.scenarios(tier)] + spec_reader.scenarios(tier)[3:] + spec_blob.scenarios(tier)[2:3]
     obls, samples = mlane.run_scenarios("C09", "O09", scen, ctx, "one call; any bytes; step budget 20000 MIR blocks")
     return dict(obligations=obls, functions=FUNCTIONS, assumptions=ASSUME, samples=samples,
                 extra={"engine": "mirsym (MIR -> z3 5.1)", "mir_regenerated_from": "/repo working tree"})
